@@ -54,8 +54,9 @@ def _cases(ctx, nl):
     rng = random.Random(ctx.seed * 17 + 5)
     cases = []
     hist = {'lenses': 0, 'with_mirror': 0, 'catalogue_glass': 0, 'errors': {}}
-    for li in range(nl):
-        spec = lensgen.gen_spec(rng, allow=['plane', 'standard'], decenter=False, mirrors=(li % 4 == 0))
+    corp = [c for c in lensgen.corpus() if c['name'] in ('mangin', 'image-in-glass', 'tir-planoconvex')]
+    for li in range(nl + len(corp)):
+        spec = dict(corp[li]) if li < len(corp) else lensgen.gen_spec(rng, allow=['plane', 'standard'], decenter=False, mirrors=(li % 4 == 0))
         if max(f[0] for f in spec['fields']) == 0:
             spec['fields'].append([rng.uniform(1, 6), 0.0, 0.0, 0.0])
         edits = []
